@@ -36,6 +36,9 @@ type imgOpts struct {
 	unsupported string
 	bigDir      int  // entries of the big directory
 	deepFrag    bool // many-extent files (interior extent nodes)
+	// smallExtra: some inodes get an i_extra_isize below 32 (debugfs sif), so that words of the extra area do
+	// not exist for them and in-inode attributes start earlier (finding ext4-inode-extra-isize-ignored)
+	smallExtra bool
 }
 
 func (o imgOpts) String() string {
@@ -65,6 +68,8 @@ type node struct {
 	// a library that does not support them may refuse the file with an error
 	unwritten [][2]int
 	frag      bool // written into fragmented free space (many extents, no holes)
+	// smallExtra: the i_extra_isize debugfs gave this inode (0 = untouched, 32)
+	smallExtra int
 	// metadata as the reference tool reports it (debugfs stat), filled by refStat
 	ref *refMeta
 }
@@ -536,6 +541,38 @@ func genTree(r *hx.Rng, dir string, o imgOpts) (*tree, error) {
 	}
 	place("sp_mid", true, true)    // sparse file, both
 	place("fragfile", true, false) // file written by debugfs, many extents, external block only
+	// --- small i_extra_isize: legal (e2fsck accepts 4..inode size-128 in steps of 4), written by older kernels and
+	// tools. A field of the extra area that i_extra_isize does not reach does not exist (the reference tool prints
+	// the timestamp without its extra word, no crtime), and in-inode attributes start right behind the shorter area.
+	if o.smallExtra && o.inodeSize >= 256 {
+		var cand []string
+		for p, n := range t.nodes {
+			if p == "." || n.xattrs != nil || strings.HasPrefix(p, "big/") || strings.HasPrefix(p, "fill/") || strings.ContainsAny(p, " \"") {
+				continue
+			}
+			cand = append(cand, p)
+		}
+		sort.Strings(cand)
+		// 4: no word of the extra area exists; 24, 28: all timestamp words exist. The sizes between are left to the
+		// synthetic records of ext4ref.inodedec: debugfs prints the extra words all or none (i_extra_isize >= 24),
+		// so it is no reference for an inode in which only some of them exist
+		sizes := []int{4, 4, 24, 4, 28}
+		for i, p := range cand {
+			if i >= 28 {
+				break
+			}
+			n := t.nodes[p]
+			n.smallExtra = sizes[i%len(sizes)]
+			t.cmds = append(t.cmds, fmt.Sprintf("sif %s extra_isize %d", p, n.smallExtra))
+			if i%3 == 0 { // an attribute right behind the shortened extra area
+				ns := "user."
+				if n.kind == kSymlink {
+					ns = "trusted."
+				}
+				xa(p, ns+"sx", []byte("value-behind-the-extra-area"))
+			}
+		}
+	}
 	return t, nil
 }
 
